@@ -588,6 +588,18 @@ def r_leafguard(prog, tier):
                     continue        # also the way out after recursing: not an early return
                 if shortcut and not (isinstance(r.ast.value, ast.Constant)):
                     continue
+                kids = set(nm_ for nm_ in f.locals for (_, dv_) in name_defs(f, nm_) if isinstance(dv_, ast.AST) and (
+                    unparse(dv_) == '%s.children' % p or (isinstance(dv_, ast.Call) and unparse(dv_.func).split('.')[-1] == 'children'
+                                                           and dv_.args and unparse(dv_.args[0]) == p)))
+
+                def _child_of_p(a_):
+                    return any((isinstance(y_, ast.Attribute) and y_.attr == 'children' and unparse(y_.value) == p) or
+                               (isinstance(y_, ast.Name) and y_.id in kids) or
+                               (isinstance(y_, ast.Call) and unparse(y_.func).split('.')[-1] == 'children' and y_.args
+                                and unparse(y_.args[0]) == p) for y_ in ast.walk(a_))
+                if r.ast.value is not None and any(isinstance(c_, ast.Call) and prog.callee(c_, f) is not None
+                                                   and any(_child_of_p(a_) for a_ in c_.args) for c_ in ast.walk(r.ast.value)):
+                    continue        # the children are handed on to another function of the package: the walk goes on there
                 b = _children_count_bound(prog, f, p, r.id)
                 if b is None:
                     continue
